@@ -1,6 +1,6 @@
 """C07 — sync-collection (store-level part)."""
 import json
-from bodies import Tokens
+from bodies import Tokens, vevent
 from storefam import gen_many, run_templates, replay_store
 from httpfam import run_http_templates
 
@@ -16,6 +16,19 @@ def run(chk):
     toks = Tokens()
     n = 12 if chk.tier == "quick" else 150
     tmpls = gen_many(chk, toks, n, 25 if chk.tier == "quick" else 40, PROFILE)
+    # deterministic probes, run first: content that moves to another name while the old name gets
+    # new content; members whose names start with a dot; revert to an earlier state
+    t1, t2, t3 = (toks.tok(vevent("probe-%d" % i, summary="probe %d" % i)) for i in (1, 2, 3))
+    P = lambda n, t: ("put", n, "text/calendar", t, "none")
+    probes = [
+        [P("a.ics", t1), ("sync", "all"), ("del", "a.ics", "none"), P("b.ics", t1), P("a.ics", t2), ("sync", "all"),
+         ("sync", None)],
+        [P(".draft.ics", t1), ("sync", "all"), P("a.ics", t2), ("sync", "all"), P(".draft.ics", t3), ("sync", "all"),
+         ("del", ".draft.ics", "none"), ("sync", "all"), ("sync", None)],
+        [P("a.ics", t1), P("z.ics", t2), ("sync", "all"), ("del", "z.ics", "none"), P("m.ics", t2), P("a.ics", t3),
+         ("sync", "all"), P("a.ics", t1), ("sync", "all")],
+    ]
+    tmpls = probes + tmpls
     run_templates(chk, tmpls, toks, PREFIXES, kinds=["bare-mem", "bare-disk", "tree"])
     run_http_templates(chk, toks, 5 if chk.tier == "quick" else 60, 22 if chk.tier == "quick" else 30, "sync", PREFIXES, check_tags=True)
 
